@@ -78,7 +78,9 @@ func checkC02(c *Case) (*Violation, caseInfo) {
 	}
 	if c.Kind == "reader-latin1" {
 		opts := c.Opts.Build()
-		out = guarded(0, func() (*distiller.Result, error) { return distiller.ApplyForReader(bytes.NewReader(latin1Bytes(c.HTML)), opts) })
+		out = guarded(0, func() (*distiller.Result, error) {
+			return distiller.ApplyForReader(bytes.NewReader(latin1Bytes(c.HTML)), opts)
+		})
 		info.Classes = append(info.Classes, "entry:ApplyForReader-latin1")
 	}
 	if out.Panicked || out.Err != nil || out.Res == nil {
@@ -151,12 +153,19 @@ func checkC02(c *Case) (*Violation, caseInfo) {
 	// whole-word form: a word of either view must be exactly one source token (a word fused
 	// from two tokens, or a fragment of one, would be invented text).
 	if viol == nil {
+		sourceWords := map[string]bool{}
+		for _, w := range strings.Fields(punctToSpace(innerTextOf(doc))) {
+			sourceWords[w] = true
+		}
 		wordsText := strings.Fields(punctToSpace(res.Text))
 		wordsHTML := visibleWordsOfOutput(res.Node)
 		for i, ws := range [][]string{wordsText, wordsHTML} {
 			for _, w := range ws {
 				if (c.Kind == "reader" || c.Kind == "reader-latin1") && rxToken.FindString(w) != w {
 					continue // words of the prose paragraph: checked above against the source's words
+				}
+				if rxToken.FindString(w) == "" && sourceWords[w] {
+					continue // a word without any token (a symbol used as link text): it is a word of the source
 				}
 				if inner := rxToken.FindString(w); inner != w {
 					// raw markup text of noscript & co. inside a retained data table or figure is
